@@ -1,14 +1,19 @@
 import Driver.Common
 import FranzVerif.Model.C33
-/-! Sub-driver C33. Input lines `op | impl`; output `model | verdict | nontrivial` (see harness/cmd/c33/main.go).
+/-! Sub-driver C33. Input lines `op | impl`; output `model | verdict | nontrivial | clause` (see harness/cmd/c33/main.go).
+
+A lineage is `reset` (generation 1 on an empty fs) followed by `cont` (more workload), `peek k tail` (crash image of the
+printed trace, restart, read back, lineage not advanced), `crash k tail` (same, lineage continues on the restarted
+instance), `close` (clean Close, restart, read back, lineage continues) and `probe` (produces + live read back).
 
 The model side: the crash image is computed by the model's file system from the recorded trace (prefix `k`, tail
-choice), then the model's recovery (`readEntries`, `loadSegment`, `loadPartition`, `replayCommits`) predicts the tokens
-`ok|fail`, `f:` (image), `t:` `p:` `u:` `a:` `c:` `g:`; the tokens `d:` / `x:` (producer / transaction listing) are not
-modelled and are copied from the implementation's output.
+choice) on the image the instance started on, then the model's recovery (`readEntries`, `loadSegment`, `loadPartition`
+with the snapshot acceptance decision, `replayCommits`) predicts the tokens `ok|fail`, `f:` (image), `t:` `p:` `u:` `a:`
+`c:` `g:`; the tokens `d:` / `x:` (producer / transaction listing) are not modelled and are copied from the
+implementation's output. The start-up truncations the model predicts are compared with the recorded ones.
 
 The Spec side (independent of the model): evaluated on the implementation's tokens and on the request marks of the
-trace (`Q:` issued, `A:` acknowledged) that precede the crash point. -/
+traces of all generations (`Q:` issued, `A:` acknowledged) that precede the stops. -/
 open Driver Model.C33
 
 namespace C33
@@ -152,7 +157,19 @@ def recover (dict : List (Bytes × String)) (fs : FS) : Recovered :=
         (match td with | some n => [s!"T:{dir}{b}.dat:{n}"] | none => []) ++
         (match ti with | some n => [s!"T:{dir}{b}.idx:{n}"] | none => [])
       (tp, loadPartition crc32c segs snapBytes.isSome snap, torn, tr)
-    let pTok := loaded.flatMap fun (tp, pt, _, _) =>
+    -- in-progress transactions restored from session_state.json (present only after a clean Close)
+    let sess : List (String × Nat) :=
+      match (content (dataDir ++ "/session_state.json")).bind (lookup dict) with
+      | some ann =>
+        match ann.splitOn "," with
+        | ["sess", l] => if l == "-" then [] else (l.splitOn ";").filterMap fun x =>
+            match x.splitOn "@" with
+            | [_, tp, f] => some (tp, f.toNat!)
+            | _ => none
+        | _ => []
+      | none => []
+    let pTok := loaded.flatMap fun (tp, pt0, _, _) =>
+      let pt : Part := { pt0 with lso := sessionLso ((sess.filter (fun (x : String × Nat) => x.1 == tp)).map (fun x => x.2)) pt0.lso }
       let bs := pt.batches.map (·.1)
       let rc := bs.filter (fun b => b.first < pt.lso)
       let ab := match rc.getLast? with
@@ -230,7 +247,7 @@ def tokVal (toks : List String) (pre : String) : Option String :=
 
 /-- Spec of the property on a recovered state. `reqs`: requests issued before the crash points (all generations,
 in order). Returns the first violated clause. -/
-def specCheck (toks : List String) (reqs : List Req) (clean : Bool := false) : Option String := Id.run do
+def specCheck (toks : List String) (reqs : List Req) (crashed : List Nat := []) : Option String := Id.run do
   if toks.head? != some "ok" then return some "restart-failed"
   let topics := toks.filterMap fun t => match splitColon t with | ["t", n, c] => some (n, c.toNat!) | _ => none
   -- topics: acknowledged creations exist, nothing unknown exists
@@ -274,16 +291,25 @@ def specCheck (toks : List String) (reqs : List Req) (clean : Bool := false) : O
         let off := (r.res.getD 1 "").toNat!
         let crc := r.args.getLast?.getD ""
         if !(us.any fun b => b.first == off && b.crc == crc) then return some "acked-produce-lost"
-    -- read_committed view against the transactions' outcomes. After a clean Close a transaction that is still
-    -- open legitimately holds the last stable offset at its first offset (after a crash it is aborted).
-    let lastGen := (reqs.map (·.gen)).foldl max 0
-    let openFirsts := if !clean then [] else (reqs.zipIdx.filterMap fun (r, j) =>
-      if r.kind == "P" && r.gen == lastGen && r.args.head? == some tp && r.args.getD 1 "" == "t" && r.acked && r.res.head? == some "0"
-         && !((reqs.drop (j + 1)).any fun e => e.gen == r.gen && e.kind == "E" && e.args.head? == some (r.args.getD 2 "")) then
+    -- an acknowledged offset is assigned once
+    let acked := prods.filterMap fun r =>
+      if r.args.head? == some tp && r.acked && r.res.head? == some "0" then some ((r.res.getD 1 "").toNat!, (r.args.getD 5 "1").toNat!) else none
+    for (x, i) in acked.zipIdx do
+      for y in acked.drop (i + 1) do
+        if x.1 < y.1 + y.2 && y.1 < x.1 + x.2 then return some "offset-assigned-twice"
+    -- read_committed view against the transactions' outcomes. A transaction that is still open — no EndTxn, no crash
+    -- of its own or any later generation (a clean Close carries it over), its producer not re-initialised — legitimately
+    -- holds the last stable offset at its first offset.
+    let openFirsts := reqs.zipIdx.filterMap fun (r, j) =>
+      let pid := r.args.getD 2 ""
+      if r.kind == "P" && r.args.head? == some tp && r.args.getD 1 "" == "t" && r.acked && r.res.head? == some "0"
+         && !(crashed.any (· ≥ r.gen))
+         && !((reqs.drop (j + 1)).any fun e => (e.gen == r.gen && e.kind == "E" && e.args.head? == some pid) ||
+                                              (e.kind == "IP" && e.res.getD 1 "" == pid)) then
         (r.res.getD 1 "").toNat?
-      else none)
+      else none
     let held := fun (off : Nat) => openFirsts.any (· ≤ off)
-    if !(openFirsts.isEmpty) && !(openFirsts.any (· == lso)) && lso != hwm then return some "lso-not-at-open-transaction"
+    if !(openFirsts.isEmpty) && !(openFirsts.any (· == lso)) && lso != hwm then return some ("lso-not-at-open-transaction/-/" ++ tp)
     let mut i := 0
     for r in reqs do
       i := i + 1
@@ -293,7 +319,7 @@ def specCheck (toks : List String) (reqs : List Req) (clean : Bool := false) : O
           let visible := vis.any (·.crc == crc)
           let kind := r.args.getD 1 ""
           if kind != "t" then
-            if r.acked && !visible && !held ((r.res.getD 1 "").toNat!) then return some "acked-produce-hidden-from-read-committed"
+            if r.acked && !visible && !held ((r.res.getD 1 "").toNat!) then return some ("acked-produce-hidden-from-read-committed/-/" ++ tp)
           else
             let pid := r.args.getD 2 ""
             -- the transaction's end: the next EndTxn of this pid in the same generation
@@ -301,7 +327,7 @@ def specCheck (toks : List String) (reqs : List Req) (clean : Bool := false) : O
             match later.head? with
             | some e =>
               let commit := e.args.getD 1 "" == "1"
-              if commit && e.acked && e.res == ["0"] && r.acked && !visible && !held ((r.res.getD 1 "").toNat!) then return some ("committed-txn-hidden/" ++ pid)
+              if commit && e.acked && e.res == ["0"] && r.acked && !visible && !held ((r.res.getD 1 "").toNat!) then return some ("committed-txn-hidden/" ++ pid ++ "/" ++ tp)
               if !commit && visible then return some ("aborted-txn-visible/" ++ pid)
               if commit && e.acked && e.res != ["0"] && visible then return some ("uncommitted-txn-visible/" ++ pid)
             | none => if visible then return some ("uncommitted-txn-visible/" ++ pid)
@@ -324,17 +350,18 @@ def specCheck (toks : List String) (reqs : List Req) (clean : Bool := false) : O
 /-! ### driver state -/
 
 structure St where
-  trace1 : List Item := []
+  base : FS := []                 -- image (before recovery) the live instance started on
+  trace : List Item := []         -- operations since that start, as last printed
   dict : List (Bytes × String) := []
-  img1 : FS := []
-  k1 : Nat := 0
-  skew1 : Bool := false
-  truncs1 : List String := []
-  junk1 : Bool := false
-  trace2 : List Item := []
+  past : List Req := []           -- requests of the finished generations (issued before their stop)
+  gen : Nat := 1
+  crashed : List Nat := []        -- generations that ended in a crash
+  skew : Bool := false
+  junk : Bool := false
+  truncs : List String := []      -- truncations the model's start-up performs on `base`
 
-def clauseOf (toks : List String) (reqs : List Req) (extra : Option String := none) (clean : Bool := false) : String :=
-  ((specCheck toks reqs clean).orElse (fun _ => extra)).getD "-"
+def clauseOf (toks : List String) (reqs : List Req) (crashed : List Nat) (extra : Option String := none) : String :=
+  ((specCheck toks reqs crashed).orElse (fun _ => extra)).getD "-"
 
 /-- Under SyncWrites a request is acknowledged only when everything it wrote is durable: at every successful `A:` mark
 no file has an unsynced tail. (This is the hypothesis "acknowledged ⇒ its sync completed" of the theorems, checked on
@@ -357,23 +384,33 @@ def traceVerdict (base : FS) (items : List Item) : String :=
   | some n => s!"1 | {boolStr (n > 0)}"
   | none => "0:ack-before-sync | 1"
 
-def verdictOf (toks : List String) (reqs : List Req) (skew junk : Bool) (extra : Option String := none) (clean : Bool := false) : String :=
-  match (specCheck toks reqs clean).orElse (fun _ => extra) with
+def verdictOf (toks : List String) (reqs : List Req) (crashed : List Nat) (curGen : Nat) (skew junk : Bool)
+    (extra : Option String := none) : String :=
+  match (specCheck toks reqs crashed).orElse (fun _ => extra) with
   | none => "1"
   | some kindPid =>
     let kind := (kindPid.splitOn "/").headD ""
     let pid := (kindPid.splitOn "/").getD 1 ""
-    -- producers whose transaction was open when an EARLIER generation crashed (no acknowledged EndTxn in that generation):
-    -- recovery aborts such a transaction in memory only, no abort marker reaches the log
-    let lastGen := (reqs.map (·.gen)).foldl max 0
+    -- producers whose transaction was open (no acknowledged EndTxn in its generation) when that or a later, EARLIER-than-
+    -- current generation crashed: recovery aborts such a transaction in memory only, no abort marker reaches the log
     let crashAborted := reqs.zipIdx.any fun (r, j) =>
-      r.kind == "P" && r.gen < lastGen && r.args.getD 1 "" == "t" && r.args.getD 2 "" == pid &&
+      r.kind == "P" && r.args.getD 1 "" == "t" && r.args.getD 2 "" == pid &&
+      crashed.any (fun g => r.gen ≤ g && g < curGen) &&
       !((reqs.drop (j + 1)).any fun e => e.gen == r.gen && e.kind == "E" && e.acked && e.args.head? == some pid)
+    let tp := (kindPid.splitOn "/").getD 2 ""
+    -- a transaction left open across a CLEAN Close (kept alive by session_state.json) on this partition, and a later
+    -- generation crashed: the snapshot path restores the held LSO but the transaction state is gone
+    let carriedOpen := reqs.zipIdx.any fun (r, j) =>
+      r.kind == "P" && r.args.getD 1 "" == "t" && r.args.head? == some tp && r.acked && r.res.head? == some "0" &&
+      !crashed.contains r.gen && crashed.any (· > r.gen) &&
+      !((reqs.drop (j + 1)).any fun e => e.gen == r.gen && e.kind == "E" && e.args.head? == some (r.args.getD 2 ""))
     -- stable keys of the three defects this check found, each only for the clauses it explains. The open one (crash-aborted
     -- transaction without marker) is decided from the requests alone and goes first; the two repaired ones are classes of
     -- crash images (torn append visible in the image / torn state-log tail in the lineage) and are plain violations now.
     if crashAborted && ["uncommitted-txn-visible", "aborted-txn-visible", "committed-txn-hidden"].contains kind then
       "0:crash-aborted-txn-has-no-marker"
+    else if carriedOpen && ["acked-produce-hidden-from-read-committed", "committed-txn-hidden", "lso-not-at-open-transaction"].contains kind then
+      "0:snapshot-lso-stuck-after-crash"
     else if skew && ["uncommitted-txn-visible", "aborted-txn-visible", "committed-txn-hidden", "acked-produce-hidden-from-read-committed",
                 "close-restart-differs", "lso-not-at-open-transaction"].contains kind then "0:index-segment-skew-after-torn-append"
     else if junk && kind == "acked-commit-lost" then "0:state-log-torn-tail-kept"
@@ -383,6 +420,17 @@ def verdictOf (toks : List String) (reqs : List Req) (skew junk : Bool) (extra :
 def withUnmodelled (model : List String) (impl : List String) : String :=
   " ".intercalate (model ++ impl.filter (fun t => t.startsWith "d:" || t.startsWith "x:"))
 
+/-- start-up of the live instance: its truncations (recorded before the first request) must be the ones the model's
+start-up performs on the image it started on. -/
+def truncsOK (st : St) (tr : List Item) : Option String :=
+  let recorded := sortStr ((tr.takeWhile fun i => match i.op with | .mark => !i.text.startsWith "Q:" | _ => true).filterMap fun i =>
+    match i.op with
+    | .truncate p n => some s!"T:{p}:{n}"
+    | _ => none)
+  if recorded == st.truncs then none else some s!"T! start-up truncations: model {st.truncs} recorded {recorded}"
+
+def parseK (k : String) (len : Nat) : Nat := if k == "e" then len else k.toNat! % (len + 1)
+
 def step (st : St) (line : String) : St × String :=
   let (op, impl) := splitBar line
   let it := toks impl
@@ -391,62 +439,68 @@ def step (st : St) (line : String) : St × String :=
     match it with
     | "T" :: items =>
       let tr := parseTrace items
-      ({ trace1 := tr, dict := buildDict tr }, s!"* | {traceVerdict [] tr}")
+      ({ trace := tr, dict := buildDict tr }, s!"* | {traceVerdict [] tr}")
     | _ => ({}, "* | 0:workload-failed | 0")
-  | "crash" :: k :: tail :: _ =>
-    let ops := st.trace1.map (·.op)
-    let k' := k.toNat! % (ops.length + 1)
-    let img := applyTail (FS.run [] (ops.take k')) tail
-    let rec_ := recover st.dict img
-    match it with
-    | "R" :: toks =>
-      let reqs := reqsOf 1 st.trace1 k'
-      let v := verdictOf toks reqs rec_.skew rec_.junk
-      let nt := boolStr (k' > 0)
-      ({ st with img1 := img, k1 := k', skew1 := rec_.skew, junk1 := rec_.junk, truncs1 := rec_.truncs, trace2 := [] },
-       s!"R {withUnmodelled rec_.toks toks} | {v} | {nt} | {clauseOf toks reqs}")
-    | _ => (st, "* | 0:harness-failed | 0")
   | "cont" :: _ =>
     match it with
     | "T" :: items =>
       let tr := parseTrace items
-      -- start-up of the instance this workload runs on: its truncations (recorded before the first request) must be
-      -- the ones the model's start-up performs on the crash image
-      let recorded := sortStr ((tr.takeWhile fun i => match i.op with | .mark => !i.text.startsWith "Q:" | _ => true).filterMap fun i =>
-        match i.op with
-        | .truncate p n => some s!"T:{p}:{n}"
-        | _ => none)
-      let mout := if recorded == st.truncs1 then "*" else s!"T! start-up truncations: model {st.truncs1} recorded {recorded}"
-      ({ st with trace2 := tr, dict := st.dict ++ buildDict tr }, s!"{mout} | {traceVerdict st.img1 tr}")
+      let mout := (truncsOK st tr).getD "*"
+      ({ st with trace := tr, dict := st.dict ++ buildDict tr }, s!"{mout} | {traceVerdict st.base tr}")
     | _ => (st, "* | 0:workload-failed | 0")
-  | "crash2" :: k :: tail :: _ =>
-    let ops := st.trace2.map (·.op)
-    let k' := k.toNat! % (ops.length + 1)
-    let img := applyTail (FS.run st.img1 (ops.take k')) tail
+  | kind :: k :: tail :: _ =>
+    if kind != "peek" && kind != "crash" then (st, "bad-op | - | 0") else
+    let ops := st.trace.map (·.op)
+    let k' := parseK k ops.length
+    let img := applyTail (FS.run st.base (ops.take k')) tail
     let rec_ := recover st.dict img
     match it with
     | "R" :: toks =>
-      let reqs := reqsOf 1 st.trace1 st.k1 ++ reqsOf 2 st.trace2 k'
-      let v := verdictOf toks reqs (rec_.skew || st.skew1) (rec_.junk || st.junk1)
-      (st, s!"R {withUnmodelled rec_.toks toks} | {v} | 1 | {clauseOf toks reqs}")
+      let reqs := st.past ++ reqsOf st.gen st.trace k'
+      let crashed := st.crashed ++ [st.gen]
+      let skew := rec_.skew || st.skew
+      let junk := rec_.junk || st.junk
+      let v := verdictOf toks reqs crashed st.gen skew junk
+      let nt := boolStr (k' > 0 || st.gen > 1)
+      let st' := if kind == "crash" then
+          { st with base := img, trace := [], past := reqs, gen := st.gen + 1, crashed := crashed, skew := skew, junk := junk,
+                    truncs := rec_.truncs }
+        else st
+      (st', s!"R {withUnmodelled rec_.toks toks} | {v} | {nt} | {clauseOf toks reqs crashed}")
     | _ => (st, "* | 0:harness-failed | 0")
-  | "close2" :: _ =>
-    -- `T closeops # B before # R after`
+  | "close" :: _ =>
+    -- `T trace # B before # R after`
     match impl.splitOn " # " with
     | [t, b, r] =>
-      let closeItems := parseTrace ((toks t).drop 1)
+      let tr := parseTrace ((toks t).drop 1)
       let before := (toks b).drop 1
       let after := (toks r).drop 1
-      let dict := st.dict ++ buildDict closeItems
-      let ops := (st.trace2 ++ closeItems).map (·.op)
-      let img := applyTail (FS.run st.img1 ops) "K"
+      let dict := st.dict ++ buildDict tr
+      let img := applyTail (FS.run st.base (tr.map (·.op))) "K"
       let rec_ := recover dict img
-      let reqs := reqsOf 1 st.trace1 st.k1 ++ reqsOf 2 st.trace2 st.trace2.length
+      let reqs := st.past ++ reqsOf st.gen tr tr.length
       -- clean Close + restart: identical protocol-visible state
       let same := before == after.filter (fun x => !x.startsWith "f:" && x != "ok")
       let extra := if same then none else some "close-restart-differs"
-      let v := verdictOf after reqs (rec_.skew || st.skew1) (rec_.junk || st.junk1) extra true
-      (st, s!"{t} # {b} # R {withUnmodelled rec_.toks after} | {v} | 1 | {clauseOf after reqs extra true}")
+      let skew := rec_.skew || st.skew
+      let junk := rec_.junk || st.junk
+      let v := verdictOf after reqs st.crashed st.gen skew junk extra
+      let tOut := match truncsOK st tr with | some e => e | none => t
+      ({ st with base := img, trace := [], dict := dict, past := reqs, gen := st.gen + 1, skew := skew, junk := junk,
+                 truncs := rec_.truncs },
+       s!"{tOut} # {b} # R {withUnmodelled rec_.toks after} | {v} | 1 | {clauseOf after reqs st.crashed extra}")
+    | _ => (st, "* | 0:harness-failed | 0")
+  | "probe" :: _ =>
+    -- `T trace # R live state`: requests after the last restart and a live read back (not predicted by the model)
+    match impl.splitOn " # " with
+    | [t, r] =>
+      let tr := parseTrace ((toks t).drop 1)
+      let live := (toks r).drop 1
+      let reqs := st.past ++ reqsOf st.gen tr tr.length
+      let v := verdictOf live reqs st.crashed st.gen st.skew st.junk
+      let mout := (truncsOK st tr).getD "*"
+      let disc := match ackDiscipline st.base tr with | some _ => v | none => "0:ack-before-sync"
+      ({ st with trace := tr, dict := st.dict ++ buildDict tr }, s!"{mout} | {disc} | 1 | {clauseOf live reqs st.crashed}")
     | _ => (st, "* | 0:harness-failed | 0")
   | _ => (st, "bad-op | - | 0")
 
